@@ -166,3 +166,43 @@ def call_name_of(node):
         if isinstance(f, ast.Attribute):
             return f.attr
     return None
+
+
+def nodes_with_guards(fnode, pred):
+    """[(node, [guard test text, ...])] for every AST node satisfying ``pred``; guards are the tests of the
+    enclosing if/elif/while statements (negated as 'not (...)' on else paths, including earlier elif tests)."""
+    out = []
+
+    def rec(stmts, guards):
+        for st in stmts:
+            if isinstance(st, ast.If):
+                t = ast.unparse(st.test)
+                for n in ast.walk(st.test):
+                    if pred(n):
+                        out.append((n, guards))
+                rec(st.body, guards + [t])
+                rec(st.orelse, guards + [f'not ({t})'])
+            elif isinstance(st, (ast.For, ast.AsyncFor)):
+                for n in ast.walk(st.iter):
+                    if pred(n):
+                        out.append((n, guards))
+                rec(st.body, guards)
+                rec(st.orelse, guards)
+            elif isinstance(st, ast.While):
+                rec(st.body, guards + [ast.unparse(st.test)])
+            elif isinstance(st, (ast.With, ast.AsyncWith)):
+                rec(st.body, guards)
+            elif isinstance(st, ast.Try):
+                rec(st.body, guards)
+                for h in st.handlers:
+                    rec(h.body, guards + ['<except>'])
+                rec(st.orelse, guards)
+                rec(st.finalbody, guards)
+            elif isinstance(st, (ast.FunctionDef, ast.ClassDef)):
+                continue
+            else:
+                for n in ast.walk(st):
+                    if pred(n):
+                        out.append((n, guards))
+    rec(fnode.body, [])
+    return out
